@@ -93,6 +93,8 @@ def C11(ctx):
     RQ.check_qs_period(ctx, u)
     RQ.check_qs_chain(ctx, u)
     RQ.check_qs_join_leave(ctx, u)
+    RQ.check_qs_leave_deferred(ctx, u)
+    RQ.check_qs_full_fences(ctx, u)
     return ("Structural clauses of C11: the domain mutex guard releases through unlock(); counter/ack-count/agent-count "
             "writes are under the domain mutex; run() unlinks and resets the node before the callback and never touches "
             "it afterwards; callback only under acquire-loaded counter >= target; both barrier functions use the same "
@@ -136,6 +138,9 @@ def C13(ctx):
     RL.check_intrusive_list(ctx, u)
     RO.check_small_vector_selection(ctx, u)
     RO.check_stale_buffer(ctx, u, ["frg::small_vector"])
+    RO.check_grow_then_read_arg(ctx, u, ["frg::vector", "frg::small_vector"])
+    RO.check_built_into_kept_storage(ctx, u, ["frg::vector", "frg::small_vector"])
+    RO.check_raw_storage_moves(ctx, u, ["frg::small_vector"])
     return ("Structural clauses of C13: emptiness polarity, front/back subscripts, swap completeness, relocation ranges "
             "in growth, forwarded arguments consumed once, intrusive list link protocol. Not decided: equality with a "
             "reference sequence after arbitrary histories.")
@@ -165,8 +170,13 @@ def C16(ctx):
              "destroyed / returned to the allocator, until it is reassigned", 8)
     for u in (us, uh, ust, uo, ur):
         RO.check_no_use_after_release(ctx, u, [f for f in u.functions if f.uq.startswith("frg::")])
+    RO.check_grow_then_read_arg(ctx, us, ["frg::vector", "frg::small_vector"])
+    RO.check_built_into_kept_storage(ctx, us, ["frg::vector", "frg::small_vector"])
+    RO.check_raw_storage_moves(ctx, us, ["frg::small_vector"])
     RHO.check_holders(ctx, uo, HOLDERS)
+    RHO.check_holder_specials(ctx, uo, HOLDERS)
     RR.check_radix_dtor(ctx, ur)
+    RR.check_entry_reuse(ctx, ur)
     RST.check_free_after_copies(ctx, ust)         # nothing is read from a buffer after it went back to the allocator
     RH.check_trailing_pointer(ctx, uh)            # a node is unlinked before it is destroyed: no freed node stays reachable
     return ("Structural clauses of C16 over vector, small_vector, dyn_array, list, hash_map, basic_string, unique_ptr, "
@@ -247,6 +257,10 @@ def C20(ctx):
     RST.check_accumulation(ctx, "B6.accumulate", uf.fns(uq="frg::printf_format") +
                            [f for f in uf.functions if f.name == "parse_fmt_spec"])
     RP.check_pop_arg(ctx, uf)
+    RP.check_magnitude_unsigned(ctx, uf)
+    RP.check_positional_fetch(ctx, uf)
+    RP.check_float_lengths(ctx, uf)
+    RP.check_grouping_cursor(ctx, uf)
     ctx.rule("R.self-recursion", "no parser or helper calls itself on every path", 0)
     RBI.check_self_recursion(ctx, uf, [f for f in uf.functions if f.uq.startswith("frg::")])
     RBI.check_self_recursion(ctx, us, [f for f in us.functions if f.uq.startswith("frg::")])
@@ -268,7 +282,7 @@ def C19(ctx):
     RP.check_fmt_spec(ctx, uf)
     ctx.rule("B6.fmt-width-range", "the {}-spec parser rejects a width before the step that would overflow it (so an "
              "out-of-range width makes the spec malformed and it is echoed unchanged)", 1)
-    RST.check_accumulation(ctx, "B6.fmt-width-range", [f for f in uf.functions if f.name == "parse_fmt_spec"][:1])
+    RST.check_accumulation(ctx, "B6.fmt-width-range", [f for f in uf.functions if f.name == "parse_fmt_spec"][:1], strict_unsigned=True)
     RP.check_logger(ctx, uf)
     return ("Structural rim of C19 only: the length-modifier table of the integer conversions (every modifier handled, widths "
             "and signedness, sibling agreement), exactly one argument popped per conversion, agent results tested and "
@@ -284,6 +298,9 @@ def C17(ctx):
     RO.check_typelevel(ctx, "W2.tuple-types", "tuple:", 8)
     RHO.check_tuple_access(ctx, u)
     RHO.check_returns(ctx, u, [f for f in u.functions if (f.owner_cls or "") in HOLDERS])
+    RHO.check_copy_selects_copy(ctx, u)
+    RO.check_forward_collapsed(ctx, u, [f for f in u.functions if f.uq.startswith("frg::")])
+    RHO.check_holder_specials(ctx, u, HOLDERS)
     return ("Structural clauses of C17: the engaged-flag state machine of optional/expected/variant/manual_box interpreted "
             "abstractly from every consistent entry state (construct only into empty storage, destroy only a live object, flag "
             "== storage at every exit, assignment copies engagement, dispatch chains never entered in an all-trapping state, "
@@ -294,6 +311,7 @@ def C17(ctx):
 def C01(ctx):
     u = need_unit(ctx, "slab", w1=True)
     RS2.check_C01(ctx, u)
+    RS2.check_size_arithmetic(ctx, u)
     return ("Structural clauses of C01: size-class arithmetic as compiler-evaluated static_asserts for every size in three "
             "configurations; one frame look-up expression whose alignment equals the constructors' placement alignment; slab "
             "carving (overhead a multiple of the item size covering the header, objects at address+k*item_size below length); "
@@ -305,6 +323,7 @@ def C02(ctx):
     u = need_unit(ctx, "slab")
     RS2.check_C02(ctx, u)
     RS2.check_stale_after_remove(ctx, u)
+    RS2.check_counter_balance(ctx, u)
     return ("Structural clauses of C02: null/zero special cases and null tests before any header dereference; copy-then-free "
             "order and provenance of the copy length in realloc's fallback; in-place success only when the size fits; a new slab "
             "only when the bucket has no head; full-test before push and re-insertion in free. Not decided: byte equality of "
